@@ -136,8 +136,11 @@ func (d *Driver) Snapshot(ctx context.Context) (migrate.RestoreFunc, error) {
 	if err != nil {
 		return nil, fmt.Errorf("sql/sqlite: querying views and triggers: %w", err)
 	}
-	var typ, name string
-	if rows.Next() {
+	var (
+		typ, name string
+		found     = rows.Next()
+	)
+	if found {
 		err = rows.Scan(&typ, &name)
 	}
 	if cerr := rows.Close(); err == nil {
@@ -146,7 +149,7 @@ func (d *Driver) Snapshot(ctx context.Context) (migrate.RestoreFunc, error) {
 	if err != nil {
 		return nil, err
 	}
-	if name != "" {
+	if found {
 		return nil, &migrate.NotCleanError{State: r, Reason: fmt.Sprintf("found %s %q", typ, name)}
 	}
 	return func(ctx context.Context) error {
